@@ -4,6 +4,8 @@ import DimodProofs.RandomGen
 import DimodProofs.GenProofs2
 import DimodProofs.GenProofs3
 import DimodModel.GenTables
+import DimodModel.GenPurity
+import DimodProofs.RandomCycle
 
 /-! # C17 — problem generators encode exactly the relation they document
 
@@ -1297,5 +1299,70 @@ theorem chimera_intertile_edges_iff (m n t : Nat) (ht : 0 < t) (hn : 0 < n) (e :
       have hc := (offset_lt_iff _ _ col n hi).mpr hcol
       exact ⟨0 + 1 * a, ⟨a, rfl, by omega⟩, 0 + 1 * a + 2 * t * col, ⟨col, rfl, hc⟩, 0 + 1 * a + 2 * t * col + n * (2 * t) * row,
         ⟨row, rfl, (offset_lt_sub_iff _ _ row m hc).mpr hrow⟩, by simp only [Nat.zero_add, Nat.one_mul]⟩
+
+/-! ## purity: the caller's argument objects are left unchanged; a second call with the same objects gives the same model (round 8)
+
+`Generated.GenPurity` is rewritten on every run from the source of every public function of `dimod/generators/*.py`
+(`harness/translators/c17_purity.py`): `scanned` lists the functions with their parameters, `writes` every statement that writes
+through a name that may alias an argument (`values *= -1` after `values = np.asarray(values, dtype=float)`, `weights[0] = …`,
+`nodes.sort()`, `out=`…).  The harness checks the same on the real objects (`pure`: snapshot of values, dtype, flags, strides
+before and after every call, for every held form of every container argument, and equality of the two returned models). -/
+
+/-- no public generator writes through an argument (or a name that may alias one) -/
+theorem generators_never_write_through_an_argument : Generated.GenPurity.writes = [] := by decide
+
+/-- the scan covers the generators the property names (one per module at least; the list itself is regenerated) -/
+theorem purity_scan_covers_the_generators :
+    (["knapsack", "quadratic_knapsack", "multi_knapsack", "quadratic_multi_knapsack", "bin_packing", "quadratic_assignment",
+      "independent_set", "maximum_independent_set", "maximum_weight_independent_set", "combinations", "and_gate", "or_gate", "xor_gate",
+      "halfadder_gate", "fulladder_gate", "multiplication_circuit", "binary_paint_shop_problem", "random_kmcsat", "random_nae3sat",
+      "random_2in4sat", "gnm_random_bqm", "gnp_random_bqm", "uniform", "randint", "ran_r", "power_r", "doped", "frustrated_loop",
+      "chimera_anticluster", "anti_crossing_clique", "anti_crossing_loops", "mimo", "coordinated_multipoint", "magic_square",
+      "binary_encoding"].all
+      (fun f => Generated.GenPurity.scanned.any (fun e => e.2.1 == f))) = true := by decide +kernel
+
+/-- **arguments unchanged and two calls agree**: for every generator function `fn`, whatever model `gen` it computes from the
+    argument objects and whatever an in-place write would do (`mutate`), a call leaves the argument objects as they were, and a
+    second call with the same objects returns the same model and again leaves them unchanged -/
+theorem generator_call_leaves_arguments_unchanged {H M : Type} (fn : String) (gen : H → M) (mutate : H → H) (heap : H) :
+    (Gen.callOn Generated.GenPurity.writes fn gen mutate heap).2 = heap
+    ∧ Gen.callTwice Generated.GenPurity.writes fn gen mutate heap = (gen heap, gen heap, heap) := by
+  have h : Gen.writesOf Generated.GenPurity.writes fn = [] := by
+    simp [Gen.writesOf, generators_never_write_through_an_argument]
+  simp [Gen.callTwice, Gen.callOn, h]
+
+/-- the statement is not vacuous: with the in-place negation of seed C17-9 in the table, the caller's array is negated after the
+    first call and the second model is built from the negated values -/
+example : Gen.callTwice [("knapsack.knapsack", "values *= -1")] "knapsack.knapsack" (fun (v : List Int) => v.map (fun a => -a))
+      (fun v => v.map (fun a => -a)) [3, 5] = ([-3, -5], [3, 5], [3, 5]) := by decide
+
+/-! ## `_random_cycle` (the random walk of `frustrated_loop`) as coded (round 8)
+
+`Gen.randomCycle adj draws`: `adj` with the recorded iteration order of the dict and of every neighbour set, `draws` the recorded
+`randint(len(adj))` and `choice` indices.  Until round 7 the walk was recorded, not modelled. -/
+
+/-- **whatever the set orders and the draws, a returned walk is a simple cycle of the graph**: no node twice, every node a neighbour
+    of its predecessor, the first a neighbour of the last, at least 3 nodes (graph without self-loops: `frustrated_loop` builds `adj`
+    from edges `u != v`) — so the loops summed by `frustrated_loop` are cycles of the given graph (`closed_walk_bound`,
+    `frustrated_loop_each_loop` apply to them) -/
+theorem random_cycle_is_simple_cycle (adj : List (Label × List Label)) (hns : ∀ v, v ∉ Gen.rcNeighbors adj v)
+    (draws : List Nat) (c : List Label) (h : Gen.randomCycle adj draws = some (some c)) :
+    c.Nodup ∧ c.IsChain (fun a b => b ∈ Gen.rcNeighbors adj a) ∧ 3 ≤ c.length
+      ∧ ∃ f l, c.head? = some f ∧ c.getLast? = some l ∧ f ∈ Gen.rcNeighbors adj l := by
+  unfold Gen.randomCycle at h
+  split at h
+  · simp at h
+  · split at h
+    · simp at h
+    · rename_i e _
+      exact Gen.rcLoop_spec adj hns _ [e.1] c (List.isChain_singleton _) (List.nodup_singleton _) h
+
+/-- the walk on the triangle 0–1–2 (neighbour sets iterated as listed): start `adj[0]`, then the first candidate each time closes
+    `[0, 1, 2]`; on the path 0–1 it walks into the dead end (`None`); the hypothesis "no self-loops" holds for both -/
+example : Gen.randomCycle [(.int 0, [.int 1, .int 2]), (.int 1, [.int 0, .int 2]), (.int 2, [.int 0, .int 1])] [0, 0, 0, 0]
+      = some (some [.int 0, .int 1, .int 2])
+    ∧ Gen.randomCycle [(.int 0, [.int 1]), (.int 1, [.int 0])] [0, 0] = some none
+    ∧ Gen.randomCycle [(.int 0, [.int 1, .int 2]), (.int 1, [.int 0, .int 2]), (.int 2, [.int 0, .int 1])] [2, 1, 0, 0]
+      = some (some [.int 2, .int 1, .int 0]) := by decide +kernel
 
 end C17
